@@ -32,15 +32,7 @@ QUIRK_OF = {'paren1': 'paren-single-param-lambda', 'notin': 'notin-grouped-with-
 CASE_DEADLINE = 10
 
 
-class Cyc:
-    """tiny deterministic chooser so that a case is (types, seed)"""
-
-    def __init__(self, seed):
-        self.s = seed & 0x7fffffff
-
-    def choice(self, seq):
-        self.s = (self.s * 1103515245 + 12345) & 0x7fffffff
-        return seq[(self.s >> 8) % len(seq)]
+Cyc = gram.Cyc
 
 
 def setup(ctx):
